@@ -686,6 +686,28 @@ class Verifier(QuantMixin, LoopMixin, ExprMixin, CallMixin, StmtMixin, BuiltinsM
         x = self.ev(e.args[0], fr)
         return self.to_val_bool(self._contents_equal(x, self.old))
 
+    def prim_dict_is_update(self, e, fr):
+        """dict_is_update(d, k, v): d now maps k to v and is otherwise exactly what it was in the pre-state (whole-view
+        postcondition: no other key changed)"""
+        d = self.ev(e.args[0], fr)
+        k = self.ev(e.args[1], fr)
+        v = self.ev(e.args[2], fr)
+        r = Val.r(d)
+        kk = self.key_term(k)
+        now = z3.Select(self.st.dct, r)
+        before = z3.Select(self.old.dct, r)
+        return self.to_val_bool(now == z3.Store(before, kk, v))
+
+    def prim_dict_same_except(self, e, fr):
+        """dict_same_except(d, k): apart from key k the dict is exactly what it was in the pre-state"""
+        d = self.ev(e.args[0], fr)
+        k = self.ev(e.args[1], fr)
+        r = Val.r(d)
+        kk = self.key_term(k)
+        now = z3.Select(self.st.dct, r)
+        before = z3.Select(self.old.dct, r)
+        return self.to_val_bool(now == z3.Store(before, kk, z3.Select(now, kk)))
+
     def prim_uf(self, e, fr):
         """uf('name', a, b, ...): uninterpreted spec predicate over values (a dependency's semantics)"""
         name = ast.literal_eval(e.args[0])
